@@ -331,10 +331,14 @@ def translate_normalize(fn: ast.FunctionDef) -> str:
         raise Unsupported("normalize_angle parameters")
     x = fn.args.args[0].arg
     body = [s for s in fn.body if not (isinstance(s, ast.Expr) and isinstance(s.value, ast.Constant))]
+    names = {x: "x", "ATOL": "(ndiv N (nofZ N gen_atol_num) (nofZ N gen_atol_den))"}
+    # leading assignments of locals (e.g. `full_turn = 2 * math.pi`) are inlined
+    while len(body) > 3 and isinstance(body[0], ast.Assign) and len(body[0].targets) == 1 and isinstance(body[0].targets[0], ast.Name):
+        names[body[0].targets[0].id] = fexpr(body[0].value, names)
+        body = body[1:]
     if len(body) != 3 or not isinstance(body[0], ast.Assign) or not isinstance(body[1], ast.If) or not isinstance(body[2], ast.Return):
         raise Unsupported("normalize_angle body")
     t = body[0].targets[0].id
-    names = {x: "x", "ATOL": "(ndiv N (nofZ N gen_atol_num) (nofZ N gen_atol_den))"}
     e0 = fexpr(body[0].value, names)
     names[t] = "t"
 
@@ -1946,7 +1950,7 @@ KERNELCHECK = """(* KernelCheck.v — the numeric kernels regenerated from the P
    generic case analysis [tie] on every test both sides make.  The proof text does not depend on the source. *)
 From Coq Require Import ZArith List Bool String.
 Import ListNotations.
-From OSQ Require Import Num IR Construct DefaultTable Matrix Check ABA Merge McKay CNOTDec Constants ConstCheck Kernels.
+From OSQ Require Import Num IR Construct DefaultTable Matrix Check ABA Merge McKay CNOTDec Constants Kernels.
 
 (* unfold everything except the functions both sides call with the same arguments *)
 Ltac tie_norm :=
@@ -2068,29 +2072,47 @@ Lemma source_signatures_ok : source_signatures_checked.
 Proof. repeat split; reflexivity. Qed.
 """
 
-CONSTCHECK = """(* ConstCheck.v — tolerance, angle normalisation and printing precisions regenerated from the Python source
-   equal the ones of the model. By computation. *)
+ATOLCHECK = """(* AtolCheck.v — the tolerance read from common.py on this run is the model's. By computation. *)
 From Coq Require Import ZArith List String.
 From OSQ Require Import Num IR Construct DefaultTable DefaultGates Constants.
 
 Lemma atol_ok : (gen_atol_num = 1 /\\ gen_atol_den = 10000000)%Z. Proof. split; reflexivity. Qed.
+"""
+
+NORMALIZECHECK = """(* NormalizeCheck.v — normalize_angle regenerated from common.py equals the model's, for every numeric instance. *)
+From Coq Require Import ZArith List String.
+From OSQ Require Import Num IR Construct DefaultTable DefaultGates Constants.
+
 Lemma normalize_ok : forall (T : Type) (N : Num T) (x : T), gen_normalize_angle N x = normalize_angle N x.
 Proof. reflexivity. Qed.
+"""
+
+PRECISIONCHECK = """(* PrecisionCheck.v — the printing precisions read from writer.py, cqasmv1_exporter.py and
+   quantify_scheduler_exporter.py on this run are the model's. By computation. *)
+From Coq Require Import ZArith List String.
+From OSQ Require Import Num IR Construct DefaultTable DefaultGates Constants.
+
 Lemma precisions_ok : (gen_writer_precision = 8 /\\ gen_v1_precision = 8 /\\ gen_qs_deg_precision = 5)%Z.
 Proof. repeat split; reflexivity. Qed.
+"""
+
+CONSTCHECK = """(* ConstCheck.v — the three constant ties in one statement *)
+From Coq Require Import ZArith List String.
+From OSQ Require Import Num IR Construct DefaultTable DefaultGates Constants.
+From OSQ Require Export AtolCheck NormalizeCheck PrecisionCheck.
 
 Definition source_constants_checked : Prop :=
   (gen_atol_num = 1 /\\ gen_atol_den = 10000000)%Z /\\
   (forall (T : Type) (N : Num T) (x : T), gen_normalize_angle N x = normalize_angle N x) /\\
   (gen_writer_precision = 8 /\\ gen_v1_precision = 8 /\\ gen_qs_deg_precision = 5)%Z.
 Lemma source_constants_ok : source_constants_checked.
-Proof. repeat split; reflexivity. Qed.
+Proof. exact (conj atol_ok (conj normalize_ok precisions_ok)). Qed.
 """
 
 TABLECHECK = """(* TableCheck.v — the DEFINITIONS of the default gates regenerated from the Python source equal the hand-written
    table all theorems are proved about; with SigCheck and ConstCheck, everything the property files need. *)
 From Coq Require Import ZArith List String.
-From OSQ Require Import Num IR Construct DefaultTable DefaultGates Constants SigCheck ConstCheck.
+From OSQ Require Import Num IR Construct DefaultTable DefaultGates Constants SigCheck NormalizeCheck.
 
 Lemma table_ok : gen_table = hand_table. Proof. reflexivity. Qed.
 
@@ -2154,7 +2176,8 @@ def main() -> int:
     for name, content in (("DefaultGates.v", translate_default_gates(repo, report)),
                           ("Constants.v", translate_constants(repo, report)),
                           ("Kernels.v", translate_kernels(repo, report)),
-                          ("SigCheck.v", SIGCHECK), ("ConstCheck.v", CONSTCHECK), ("TableCheck.v", TABLECHECK),
+                          ("SigCheck.v", SIGCHECK), ("AtolCheck.v", ATOLCHECK), ("NormalizeCheck.v", NORMALIZECHECK),
+                          ("PrecisionCheck.v", PRECISIONCHECK), ("ConstCheck.v", CONSTCHECK), ("TableCheck.v", TABLECHECK),
                           *split_kernelcheck(KERNELCHECK)):
         if write_if_changed(os.path.join(out, name), content):
             report["changed"].append(name)
